@@ -73,7 +73,7 @@ UNIT = dict(
             let d2 = files2[f];
             assert(d2.len() == d1.len());
             assert forall|i: int| 0 <= i < d1.len() && !(a <= i < a + need) implies #[trigger] d2[i] == d1[i] by {}
-            lemma_packed_append(d1, d2, blk1.offset as int, a, data@, col0, (blk1.offset + blk1.limit) as u64);
+            lemma_packed_append(d1, d2, blk1.offset as int, a, data@, col0, hdr_meta_d(d2, a as int).next_block_start);
             lemma_chain_frame(log1, col0, files0, files2, f, a, a + need);
         }"""),
                  dict(before="                    return Err(e);", count=None, text="""                    proof {
@@ -93,8 +93,8 @@ UNIT = dict(
                  ("C04:failed_append_leaves_no_trace", "ret is Err ==> topic_log(*final(self), *final(sys)) == topic_log(*old(self), *old(sys))"),
                  ("C01:successful_append_extends_the_topic_log_by_exactly_this_payload", "ret is Ok ==> topic_log(*final(self), *final(sys)) == topic_log(*old(self), *old(sys)).push(data@)"),
                  ("C01,C07:writer_stays_wellformed", "wf_writer(final(self).current_block, final(self).current_offset, *final(sys)) && wf_chain(final(self).reader.chain_log@, final(self).current_block, final(self).current_offset, *final(sys))"),
-                 ("C06,C07:every_header_written_records_the_end_of_the_block_it_is_written_into",
-                  "ret is Ok ==> entry_written(final(sys).files@[final(self).current_block.mmap.file], final(self).current_block.offset + final(self).current_offset - (PREFIX_META_SIZE + data@.len()), data@, old(self).col@, (final(self).current_block.offset + final(self).current_block.limit) as u64)"),
+                 ("C06,C07:the_first_header_of_a_block_records_the_end_of_that_block",
+                  "(ret is Ok && final(self).current_offset == PREFIX_META_SIZE + data@.len()) ==> entry_written(final(sys).files@[final(self).current_block.mmap.file], final(self).current_block.offset + final(self).current_offset - (PREFIX_META_SIZE + data@.len()), data@, old(self).col@, (final(self).current_block.offset + final(self).current_block.limit) as u64)"),
                  ("C04:append_never_renames_the_topic", "final(self).col == old(self).col"),
                  ("C10:with_SyncEach_an_acknowledged_append_was_flushed_after_it_was_written", "(old(self).fsync_schedule is SyncEach && ret is Ok) ==> final(sys).synced@.contains(final(self).current_block.mmap.file)"),
              ]),
